@@ -16,12 +16,24 @@
 //	    size of the interval's first message.
 //
 // Readings fixed here (also in c.Assumptions):
-//   - the message quota moves with ApplyConsensusSize; the statement gives no formula for it,
-//     so the quota "in force" is the value the preventer holds (read through the export
-//     file) at the moment the message is offered. A count that is above a quota that was
-//     lowered *afterwards* is no violation (messages cannot be un-accepted): the bound is
-//     evaluated at every acceptance, which is the only time the count changes. This is at
-//     least as strong as DESIGN's "largest quota in force during the interval".
+//   - the message quota moves with ApplyConsensusSize. The harness keeps its own reference
+//     of the quota in force, by the rule the component documents (and the unchanged tree
+//     implements): base after construction; after ApplyConsensusSize(size) with size >= 1
+//     and size >= threshold it is base + uint32(float32(size-threshold)*factor), a function
+//     of the LAST applied size only; calls with size < 1 or size < threshold leave it
+//     unchanged. Acceptances are judged against this REFERENCE quota at the moment the
+//     message is offered, never against a number read from the implementation. A count that
+//     is above a quota that was lowered *afterwards* is no violation (messages cannot be
+//     un-accepted): the bound is evaluated at every acceptance, which is the only time the
+//     count changes. This is at least as strong as DESIGN's "largest quota in force during
+//     the interval".
+//   - separate clause (4), own signature: after every event the quota the preventer holds
+//     (export file) equals the reference quota. It catches a quota that drifts (accumulates,
+//     never shrinks, ignores the base) before any peer has used the excess.
+//   - when float32(size-threshold)*factor is NaN or >= 2^32 the uint32 conversion is
+//     implementation-defined in Go; only edge configurations (factor NaN/+Inf/3e9) reach it.
+//     For such a step no formula value exists, so the reference adopts the value the
+//     preventer holds and clause (4) is skipped for that step (counted in the evidence).
 //   - "quota" has two candidate meanings: the configured maximum (computed max messages,
 //     MaxTotalSizePerPeer) or the share of it that is not reserved (PercentReserved). Both
 //     are checked under different signatures. The first (signatures "...-over-configured-
@@ -30,8 +42,7 @@
 //     implementation truncates the percentage to an integer first, which is only stricter,
 //     so neither reading can alarm on a tree that honours its own thresholds.
 //
-// Nothing else is demanded: no lower bound on what is accepted, no formula for the quota, no
-// statistics.
+// Nothing else is demanded: no lower bound on what is accepted, no statistics.
 package main
 
 import (
@@ -43,6 +54,7 @@ import (
 	"math/big"
 	"strconv"
 	"sync"
+	"sync/atomic"
 
 	logger "github.com/ElrondNetwork/elrond-go-logger"
 	"github.com/ElrondNetwork/elrond-go/core"
@@ -58,6 +70,7 @@ const (
 	sigMsgShare  = "quota:accepted-messages-over-unreserved-share"
 	sigByteShare = "quota:accepted-bytes-over-unreserved-share-plus-first"
 	sigCtor      = "quota:constructor-rejected-design-configuration"
+	sigFormula   = "quota:quota-in-force-differs-from-documented-formula"
 )
 
 // preventer is the part of the real object the harness drives (the concrete type is
@@ -135,6 +148,8 @@ type state struct {
 	q    preventer
 	ref  [2]peerRef
 	ctor string
+	// refQuota is the harness's own message quota in force (documented formula)
+	refQuota uint32
 	// last step, for the coverage labels (strings are built only when BFS asks for them)
 	lastKind int // 0 none, 1 reset, 2 quota moved, 3 quota same, 4 accepted, 5 rejected
 	lastN    uint64
@@ -217,7 +232,26 @@ func (y *system) init() *state {
 		return s
 	}
 	s.q = q
+	s.refQuota = y.cfg.Base
 	return s
+}
+
+// refApply is the documented quota rule: a function of the configuration and of the last
+// applied consensus size only. ok=false when the float value cannot be converted to uint32
+// with a defined result (NaN, negative, or >= 2^32).
+func (y *system) refApply(cur uint32, size int) (next uint32, changed bool, ok bool) {
+	if size < 1 {
+		return cur, false, true
+	}
+	if y.cfg.Threshold > uint32(size) {
+		return cur, false, true
+	}
+	over := float32(uint32(size) - y.cfg.Threshold)
+	value := over * y.cfg.Factor
+	if value != value || value < 0 || value >= 4294967296 {
+		return cur, true, false
+	}
+	return y.cfg.Base + uint32(value), true, true
 }
 
 func max1(v uint64) uint64 {
@@ -247,9 +281,16 @@ func (s *state) do(o int) (string, string) {
 		s.ref = [2]peerRef{}
 		s.lastKind = 1
 	case 2:
-		before := s.q.VerifC42State().ComputedMaxNumMessagesPerPeer
+		before := s.refQuota
 		s.q.ApplyConsensusSize(p.n)
-		after := s.q.VerifC42State().ComputedMaxNumMessagesPerPeer
+		next, _, ok := y.refApply(s.refQuota, p.n)
+		if !ok {
+			// no defined formula value: adopt what the preventer holds (see header)
+			next = s.q.VerifC42State().ComputedMaxNumMessagesPerPeer
+			atomic.AddInt64(&undefinedTotal, 1)
+		}
+		s.refQuota = next
+		after := s.refQuota
 		if after != before {
 			for i := range s.ref {
 				if s.ref[i].recv > 0 {
@@ -262,7 +303,7 @@ func (s *state) do(o int) (string, string) {
 		}
 	case 0:
 		r := &s.ref[p.peer]
-		quotaN := uint64(s.q.VerifC42State().ComputedMaxNumMessagesPerPeer) // quota in force when offered
+		quotaN := uint64(s.refQuota) // reference quota in force when the message is offered
 		err := s.q.IncreaseLoad(pids[p.peer], p.size)
 		accepted := err == nil
 		isFirst := r.recv == 0
@@ -302,6 +343,20 @@ func (s *state) do(o int) (string, string) {
 	return "", ""
 }
 
+// check is clause (4): the quota the preventer holds equals the reference quota.
+func (s *state) check() (string, string) {
+	if s.q == nil {
+		return "", ""
+	}
+	if got := s.q.VerifC42State().ComputedMaxNumMessagesPerPeer; got != s.refQuota {
+		return sigFormula, fmt.Sprintf("config %v: the preventer holds message quota %d, the documented rule (base after construction; base + uint32(float32(size-threshold)*factor) after the last ApplyConsensusSize(size) with size >= 1 and size >= threshold) gives %d",
+			s.y.cfg, got, s.refQuota)
+	}
+	return "", ""
+}
+
+var undefinedTotal int64
+
 func (s *state) key() string {
 	if s.q == nil {
 		return "ctor-error"
@@ -334,6 +389,8 @@ func (s *state) key() string {
 	}
 	b := make([]byte, 0, 112)
 	b = strconv.AppendUint(b, uint64(s.q.VerifC42State().ComputedMaxNumMessagesPerPeer), 10)
+	b = append(b, '/')
+	b = strconv.AppendUint(b, uint64(s.refQuota), 10)
 	b = append(b, '|')
 	b = append(b, blk[0]...)
 	b = append(b, '|')
@@ -396,13 +453,15 @@ func main() {
 			}
 			systems = append(systems, y)
 		}
-		c.Rule = fmt.Sprintf("one explicit-state BFS with state matching per configuration in base max {1,2,5} x max size {1,10,100} x reserved {0,33.3,50,90} x threshold {0,3} x factor {0,0.5,2} (%d configurations, all accepted by NewQuotaFloodPreventer) plus those of %d edge configurations (PercentReserved NaN x2; IncreaseFactor NaN, +Inf, 3e9; base 2^32-1 with max size 2^64-1) that the constructor accepts (%d do), on the real quotaFloodPreventer over a real LRU (capacity 1000); events IncreaseLoad(pid in {p,q}, size in %v), Reset, ApplyConsensusSize(n in %v): all event sequences of length <= %d; state = (computed max, both peers' quota records, the oracle's per-peer interval bookkeeping), mirror images under swapping p and q merged; non-trivial = a message refused by the real preventer after >=1 accepted message of that peer in the interval (distinguished by configuration, number accepted, and whether the quota moved in the interval)",
+		c.Rule = fmt.Sprintf("one explicit-state BFS with state matching per configuration in base max {1,2,5} x max size {1,10,100} x reserved {0,33.3,50,90} x threshold {0,3} x factor {0,0.5,2} (%d configurations, all accepted by NewQuotaFloodPreventer) plus those of %d edge configurations (PercentReserved NaN x2; IncreaseFactor NaN, +Inf, 3e9; base 2^32-1 with max size 2^64-1) that the constructor accepts (%d do), on the real quotaFloodPreventer over a real LRU (capacity 1000); events IncreaseLoad(pid in {p,q}, size in %v), Reset, ApplyConsensusSize(n in %v): all event sequences of length <= %d; state = (computed max held by the preventer, the harness's reference quota, both peers' quota records, the oracle's per-peer interval bookkeeping), mirror images under swapping p and q merged; non-trivial = a message refused by the real preventer after >=1 accepted message of that peer in the interval (distinguished by configuration, number accepted, and whether the quota moved in the interval)",
 			nProduct, len(cfgs)-nProduct, len(cfgs)-nProduct-edgeRejected, sizes, consensus, depth)
 		c.Assumptions = []string{
 			"the LRU never evicts (capacity 1000, 2 peers); an evicting cache restarts a peer's record and is outside the statement",
 			"operations are applied one at a time (the preventer serialises them under its mutex); no concurrency is explored",
 			"the sum of the sizes offered by one peer in an interval stays below 2^64 (sizes are lengths of in-memory messages); uint64 wrap-around of the size counters is not explored",
-			"message quota in force = computedMaxNumMessagesPerPeer held by the preventer when the message is offered (read via the export file); the bound is evaluated at each acceptance; byte quota = MaxTotalSizePerPeer",
+			"message quota in force = the harness's own reference: base after construction; base + uint32(float32(size-threshold)*factor) after the last ApplyConsensusSize(size) with size >= 1 and size >= threshold (float32 arithmetic, calls below 1 or below the threshold change nothing); acceptances are judged against it at each acceptance; byte quota = MaxTotalSizePerPeer",
+			"clause with its own signature: after every event the quota held by the preventer (export file) equals the reference quota",
+			"steps whose float value is NaN or >= 2^32 (only the edge configurations with factor NaN/+Inf/3e9) have an implementation-defined uint32 conversion: the reference adopts the preventer's value for that step and the formula clause is skipped there (counter replayed_steps_with_undefined_formula_value)",
 			"both readings of 'quota' are checked: the configured maximum (signatures *-over-configured-quota*) and the unreserved share floor((100-PercentReserved)*max/100) in exact rationals (signatures *-over-unreserved-share*); the implementation's integer truncation of the percentage is only stricter",
 			"reset interval = from construction or a Reset() to the next Reset(); 'first message' = the first message offered by that peer in the interval",
 			"no StatusHandlers are attached (statistics are not part of the statement)",
@@ -424,7 +483,7 @@ func main() {
 				Init:       y.init,
 				Menu:       y.names,
 				Do:         func(s *state, o int) (string, string) { return s.do(o) },
-				Check:      func(s *state) (string, string) { return "", "" },
+				Check:      func(s *state) (string, string) { return s.check() },
 				Key:        func(s *state) string { return s.key() },
 				Nontrivial: func(s *state) string { return s.nontrivial() },
 				Outcome:    func(s *state) string { return s.outcome() },
@@ -442,6 +501,7 @@ func main() {
 		}
 		c.Bound = fmt.Sprintf("all event sequences of length <= %d in each of %d configurations", depth, len(systems))
 		c.Count("configurations", int64(len(systems)))
+		c.Count("replayed_steps_with_undefined_formula_value", atomic.LoadInt64(&undefinedTotal))
 		c.Count("edge_configurations_accepted_by_constructor", int64(len(cfgs)-nProduct-edgeRejected))
 		c.Count("edge_configurations_rejected_by_constructor", int64(edgeRejected))
 		c.Count("configurations_searched_to_fixpoint", int64(fix))
@@ -471,7 +531,11 @@ func replay(c *mc.Ctx, systems []*system) {
 		s := y.init()
 		c.Eval(1)
 		for _, o := range ops {
-			if sig, det := s.do(o); sig != "" {
+			sig, det := s.do(o)
+			if sig == "" {
+				sig, det = s.check()
+			}
+			if sig != "" {
 				c.Violation(sig, map[string]interface{}{"history": names, "what": det}, names)
 				break
 			}
